@@ -142,3 +142,51 @@ def group_facts(ctx, rv):
     from .. import rx
     key = ('groups', rv.pattern, rv.flags)
     return ctx.cache(key, lambda: rx.groups(rv.pattern, rv.flags))
+
+
+def discarded_results(ctx, funcs, rule='DISCARD'):
+    """A call to a side-effect-free, value-returning repo function used as a
+    bare statement: the validated / converted / cleaned value is dropped."""
+    from .c16 import _mutates_param
+    n = 0
+    for fi in funcs:
+        for st in walk_local(fi.node):
+            if not (isinstance(st, ast.Expr) and isinstance(st.value, ast.Call)):
+                continue
+            c = st.value
+            name = dotted(c.func) or ''
+            last = name.split('.')[-1]
+            cands = [f for f in ctx.repo.funcs.values() if f.node.name == last and f.outer is None]
+            if len(cands) != 1:
+                continue
+            f = cands[0]
+            if last.startswith('__') or last in ('print',):
+                continue
+            rets = [r for r in walk_local(f.node) if isinstance(r, ast.Return)]
+            if not rets or any(r.value is None or (isinstance(r.value, ast.Constant) and r.value.value is None) for r in rets):
+                continue
+            # side effects: stores to attributes / globals / mutation of parameters / calls on self
+            effect = False
+            for x in walk_local(f.node):
+                if isinstance(x, ast.Attribute) and isinstance(x.ctx, (ast.Store, ast.Del)):
+                    effect = True
+                if isinstance(x, ast.Global):
+                    effect = True
+                if isinstance(x, ast.Call) and isinstance(x.func, ast.Attribute) and x.func.attr in (
+                        'append', 'extend', 'insert', 'pop', 'remove', 'update', 'setdefault', 'write', 'writerow', 'sort', 'reverse', 'clear'):
+                    tgt = x.func.value
+                    if isinstance(tgt, ast.Attribute) or (isinstance(tgt, ast.Name) and tgt.id in f.params()):
+                        effect = True
+                if isinstance(x, ast.Call) and (dotted(x.func) or '').startswith(('self.', 'cls.')) \
+                        and not (dotted(x.func) or '').split('.')[-1].startswith(('_verify', '_handle')):
+                    effect = True
+                if isinstance(x, ast.Call) and dotted(x.func) in ('print', 'setattr', 'open'):
+                    effect = True
+            if effect:
+                continue
+            n += 1
+            ctx.violation(rule, f"{fi.qualname}: `{norm(st)[:60]}`",
+                          f"`{last}()` only computes and returns a value (no side effect); calling it as a bare "
+                          f"statement drops the validated / converted result",
+                          key=f"{rule}|{fi.qualname}|{last}", where=loc(fi, st))
+    return n
